@@ -36,6 +36,7 @@ RULE = (
     "a multi-sheet workbook is read or it holds a non-string cell; a writer case when it has >= 2 rows of different "
     "length or a cell with a special character; distinct by hash of the whole case."
     "Writer cells also hold texts that look like the file's own markup and CR / CR LF line breaks."
+    "Workbooks under other names (.xls, .xlsm, none), worksheet parts outside xl/worksheets/, CIDs with one field less than the sheet is wide."
 )
 ASSUMPTIONS = [
     "XlsxWriter stores what it is told: numbers with 16 significant digits ('%.16G', generated floats are "
